@@ -15,77 +15,6 @@ import (
 	hook "github.com/pion/rtcp/zz_simhook"
 )
 
-type startEv struct {
-	Ev    string `json:"ev"`
-	Batch uint64 `json:"batch"`
-	Run   int    `json:"run"`
-	Seed  uint64 `json:"seed"`
-	Cold  bool   `json:"cold"`
-}
-
-type doneEv struct {
-	Ev         string         `json:"ev"`
-	Run        int            `json:"run"`
-	Seed       uint64         `json:"seed"`
-	Cold       bool           `json:"cold"`
-	Mode       string         `json:"mode"`
-	Tasks      int            `json:"tasks"`
-	Ops        int            `json:"ops"`
-	LibOps     int            `json:"lib_ops"`
-	Skipped    int            `json:"skipped"`
-	Steps      uint64         `json:"steps"`
-	Switches   uint64         `json:"switches"`
-	Inflight   uint64         `json:"inflight"`
-	Shared     int            `json:"shared"`
-	Strat      string         `json:"strat"`
-	Gran       string         `json:"gran"`
-	Sig        string         `json:"sig"`
-	Nontrivial bool           `json:"nontrivial"`
-	Faults     map[string]int `json:"faults"`
-	TraceHash  string         `json:"trace_hash"`
-	ResHash    string         `json:"res_hash"`
-	Divergent  int            `json:"ops_with_divergent_site_trace"`
-	Probes     []Violation    `json:"probes,omitempty"`
-	Errs       int            `json:"err_results"`
-	Panics     int            `json:"panic_results"`
-}
-
-type violEv struct {
-	Ev         string      `json:"ev"`
-	Run        int         `json:"run"`
-	Seed       uint64      `json:"seed"`
-	Race       bool        `json:"race"`
-	Violations []Violation `json:"violations"`
-	Spec       *RunSpec    `json:"spec"`
-	Recorded   []SwRec     `json:"recorded"`
-	First      int         `json:"first"`
-	RecTrunc   bool        `json:"rec_trunc"`
-}
-
-type endEv struct {
-	Ev       string `json:"ev"`
-	Runs     int    `json:"runs"`
-	Sites    []int  `json:"sites"`
-	Pairs    []int  `json:"pairs"`
-	NumSites int    `json:"num_sites"`
-	NumLabel int    `json:"num_labels"`
-	OpOnly   bool   `json:"op_only"`
-}
-
-// ReplayFile is the on-disk format of /verif/replays/*.json.
-type ReplayFile struct {
-	Property     string      `json:"property"`
-	VerifSeed    uint64      `json:"verif_seed"`
-	Build        string      `json:"build"`
-	Reproducible bool        `json:"reproducible"`
-	ReproRate    string      `json:"repro_rate,omitempty"`
-	Minimised    bool        `json:"minimised"`
-	Runs         []*RunSpec  `json:"runs"`
-	Violation    []Violation `json:"violation"`
-	RaceReport   string      `json:"race_report,omitempty"`
-	Note         string      `json:"note,omitempty"`
-}
-
 var out = json.NewEncoder(os.Stdout)
 
 func emit(v interface{}) {
@@ -209,6 +138,9 @@ func executeRun(s *RunSpec, runIdx int, racePath string) (doneEv, *violEv) {
 			}
 			if op.K == opSend && !r.skipped {
 				sharedMsgs++
+			}
+			if opLibrary(op.K) && r.siteHash != ref.res[t][i].siteHash {
+				d.Divergent++
 			}
 			for _, p := range r.parts {
 				if p.kind == ptErr && p.err != nil {
